@@ -342,7 +342,7 @@ class Session:
                 pass
 
 
-def standin_env(recdir, read="", qq=False, exit=0, kill=None, fd6=None, out=None, exec_=False, exit_seq=None):
+def standin_env(recdir, read="", qq=False, exit=0, kill=None, fd6=None, out=None, exec_=False, exit_seq=None, linger_ms=None):
     """Environment entries that script shim/standin (see shim/standin.c)."""
     os.makedirs(recdir, exist_ok=True)
     e = {"SI_DIR": recdir}
@@ -362,6 +362,8 @@ def standin_env(recdir, read="", qq=False, exit=0, kill=None, fd6=None, out=None
         e["SI_OUT_HEX"] = out.hex()
     if exec_:
         e["SI_EXEC"] = "1"
+    if linger_ms:
+        e["SI_LINGER_MS"] = str(linger_ms)
     return e
 
 
